@@ -382,6 +382,7 @@ pub fn history_case() -> impl Strategy<Value = HistoryCase> {
 }
 
 pub fn run(env: &Env, rep: &Report) {
+    stall_watchdog(300);
     rep.set_rule("pairs of valid boxes in constructed configurations (general/touching/nested/identical/edge-sharing/concentric/around bounding-circle reach), angles None/0/k*pi/2/random/|a|>2pi, sizes 0.1..1e3, coordinates to 1e4; rigid motions on a 2^-8 grid. Non-trivial: reference intersection strictly between 0 and the smaller area with >=1 rotated box, or a constructed degenerate configuration; distinct = distinct serialized case");
     rep.assume("reference geometry kernel (oracle/geom.rs, f64, local coordinates) is correct; self-checked for symmetry on every case");
     rep.assume("tolerances: intersection 1e-4 of the smaller area, IoU 2e-4; touching configurations are three-valued (either answer accepted inside the band)");
